@@ -19,6 +19,9 @@ type C19Case struct {
 	Clip  Paths       `json:"clip"`
 	FR    c2.FillRule `json:"fr"`
 	Extra []P         `json:"extra"`
+	// Entry: 0 BooleanOpPaths64, 1 the convenience wrappers, 2 an engine fed path by path,
+	// 4 one engine object executing Union, Intersection, Difference and Xor in turn
+	Entry int `json:"entry,omitempty"`
 }
 
 // drawLargePath: noisy star (few crossings) or short-step random walk (many local crossings).
@@ -70,6 +73,13 @@ func drawC19(t *rapid.T) *C19Case {
 		c.Fam = drawFamily(t)
 		c.Subj = drawClosedPaths(t, c.Fam, 1, 3, "subj")
 		c.Clip = drawClosedPaths(t, c.Fam, 1, 3, "clip")
+		switch rapid.IntRange(0, 23).Draw(t, "emptyOperand") {
+		case 0:
+			c.Subj = Paths{} // empty but not nil
+		case 1:
+			c.Clip = Paths{}
+		}
+		c.Entry = rapid.SampledFrom([]int{0, 0, 1, 2, 4}).Draw(t, "entry")
 	}
 	c.FR = rapid.SampledFrom(allFillRules).Draw(t, "fr")
 	for i, n := 0, rapid.IntRange(0, 6).Draw(t, "nExtra"); i < n; i++ {
@@ -94,16 +104,39 @@ func eventAreas(evs []c2.VerifEvent, kinds ...string) float64 {
 
 func judgeC19(c *C19Case, cx *Ctx) *Violation {
 	var pooled []c2.VerifEvent
+	entry := c.Entry
+	if entry == 4 {
+		entry = 0
+	}
 	run := func(ct c2.ClipType, s, cl Paths) Paths {
-		sol, evs := runBoolean(0, ct, c.FR, s, cl)
+		sol, evs := runBoolean(entry, ct, c.FR, s, cl)
 		pooled = append(pooled, evs...)
 		return sol
 	}
 	empty := Paths{}
-	U := run(c2.Union, c.Subj, c.Clip)
-	I := run(c2.Intersection, c.Subj, c.Clip)
-	D := run(c2.Difference, c.Subj, c.Clip)
-	X := run(c2.Xor, c.Subj, c.Clip)
+	var U, I, D, X Paths
+	if c.Entry == 4 {
+		e := c2.NewClipper64()
+		e.AddPaths(c.Subj, c2.Subject, false)
+		e.AddPaths(c.Clip, c2.Clip, false)
+		c2.VerifStartRecording()
+		for _, st := range []struct {
+			ct  c2.ClipType
+			dst *Paths
+		}{{c2.Union, &U}, {c2.Intersection, &I}, {c2.Difference, &D}, {c2.Xor, &X}} {
+			*st.dst = Paths{}
+			if !e.Execute(st.ct, c.FR, st.dst) {
+				stopRecording()
+				return violf("Execute(%s) on a reused engine returned false", ctName(st.ct))
+			}
+		}
+		pooled = append(pooled, stopRecording()...)
+	} else {
+		U = run(c2.Union, c.Subj, c.Clip)
+		I = run(c2.Intersection, c.Subj, c.Clip)
+		D = run(c2.Difference, c.Subj, c.Clip)
+		X = run(c2.Xor, c.Subj, c.Clip)
+	}
 	D2 := run(c2.Difference, c.Clip, c.Subj)
 	S1 := run(c2.Union, c.Subj, empty)
 	C1 := run(c2.Union, c.Clip, empty)
